@@ -80,6 +80,18 @@ impl CodePointInversionListBuilder {
         ensures forall|x: char| #[trigger] final(self).has(x) == (old(self).has(x) && !s.has(x)),
     { unimplemented!() }
 
+    // icu: `retain_set` keeps the intersection; `complement_set` is the symmetric difference (x is in the result iff it
+    // is in exactly one of the two). Not used by the code today; specified so that a rewording stays decidable.
+    #[verifier::external_body]
+    pub fn retain_set(&mut self, s: &CodePointInversionList)
+        ensures forall|x: char| #[trigger] final(self).has(x) == (old(self).has(x) && s.has(x)),
+    { unimplemented!() }
+
+    #[verifier::external_body]
+    pub fn complement_set(&mut self, s: &CodePointInversionList)
+        ensures forall|x: char| #[trigger] final(self).has(x) == (old(self).has(x) != s.has(x)),
+    { unimplemented!() }
+
     #[verifier::external_body]
     pub fn complement(&mut self)
         ensures forall|x: char| #[trigger] final(self).has(x) == !old(self).has(x),
